@@ -117,17 +117,62 @@ def tree_shards(n_trees, per_shard, extra=None, capture=False):
     return out
 
 
-class Tree:
-    """A spec staged through the real generator and imported (context manager)."""
+_WIDER = {"byte": "short", "char": "short", "short": "three", "three": "int", "int": "three"}
+_OTHER = {"byte": "char", "char": "short", "short": "three", "three": "int", "int": "char", "string": "encoded_string", "encoded_string": "string"}
 
-    def __init__(self, spec, explicit=False):
+
+def earlier_revision(spec):
+    """What the same specification may have looked like one revision ago: every enum on another underlying type
+    with all ordinals one higher, every integer / string field on another wire type.  Same names, same files; it
+    need not be well-formed (the generator instance that read it is used again for the revision under test)."""
+    sp = spec.clone()
+
+    def visit(body):
+        for ins in body:
+            if ins.kind in ("field", "array", "length", "dummy") and getattr(ins, "type", None) in _OTHER:
+                ins.type = _OTHER[ins.type]
+            elif ins.kind == "chunked":
+                visit(ins.body)
+            elif ins.kind == "switch":
+                for c in ins.cases:
+                    visit(c.body)
+    for f in sp.files.values():
+        for e in f.enums:
+            e.type = _WIDER.get(e.type, e.type)
+            e.values[:] = [(v[0], v[1] + 1) + tuple(v[2:]) for v in e.values]
+        for d in list(f.structs) + list(f.packets):
+            visit(d.body)
+    return sp
+
+
+def moved_revision(spec):
+    """The same types living in other directories (map <-> pub, net/client <-> net/server structs and enums swapped),
+    or None when that is not a well-formed tree."""
+    moved = spec.clone()
+    for a, b in (("map", "pub"), ("net/client", "net/server")):
+        fa, fb = moved.files[a], moved.files[b]
+        fa.enums, fb.enums = fb.enums, fa.enums
+        fa.structs, fb.structs = fb.structs, fa.structs
+    bad_names = any(n.lower() in {"": {"net", "map", "pub"}, "net": {"client", "server"}, "pub": {"server"}}.get(p, ()) for n, (d, p) in moved.types().items())
+    return None if bad_names or grammar.check(moved) else moved
+
+
+class Tree:
+    """A spec staged through the real generator and imported (context manager).  Every other tree (by content) is
+    generated by a generator instance that has read an earlier revision of the same files before."""
+
+    def __init__(self, spec, explicit=False, reuse=None):
         self.spec = spec
         self.files = S.render(spec, explicit=explicit)
         self.staged = None
         self.error = None
+        import zlib
+
+        self.generator_reused = (zlib.crc32(repr(sorted(self.files.items())).encode()) % 2 == 0) if reuse is None else reuse
+        self.prior = S.render(earlier_revision(spec), explicit=explicit) if self.generator_reused else None
 
     def __enter__(self):
-        st, ok, err, out = stage.full(self.files)
+        st, ok, err, out = stage.full(self.files, prior_files=self.prior)
         self.stdout = out
         if not ok:
             self.error = err
